@@ -78,6 +78,7 @@ theorem parsePi_emits (K : Token → Prop) (hp : ∀ t v r, K (.pi t v r)) (s : 
   · exact emits_lift _ _
   · apply emits_bind_lift; intro s1
     apply emits_bind_lift; rintro ⟨s2, target⟩
+    apply emits_bind_lift; intro s2'
     apply emits_bind_lift; rintro ⟨s3, content⟩
     apply emits_bind_lift; intro s4
     exact emits_bind _ _ _ (emits_emit _ _ (hp _ _ _)) (fun _ => emits_pure _ _)
